@@ -63,4 +63,27 @@ TABLE = {
         "note": _NOTE + " Outcomes for arbitrary class trees (metaclass execution) are not decided.",
         "technique": "effect/freshness analysis per method, who-may-bind tables, dominance by statement order, sibling-condition agreement, hash/eq cell-set inclusion",
     },
+    "C05": {
+        "text": "Taint rule: no terminal-relative padding reaches a computing method (every sink receiver is dominated by a resolving step, is the second result of "
+                "_init_render_, or is a field with only sanitised stores); AlignedPadding's computing methods guard on `relative`; the three definitions of 'relative "
+                "dimension' agree (max(t+d,1)); resolve() preserves every other field; the alignment table and the margin formulas are checked as polynomials "
+                "(near = pad*n//d, far = pad-near, padded = l+w+r); pad-iff-different with unpadded operands; padding after the cache.",
+        "note": _NOTE + " That the composed string occupies exactly the box on a terminal (cursor-moving inner renders, fills) is a terminal-model question, not decided.",
+        "technique": "may-taint/dominance dataflow on the CFG, field-store discipline, pattern matching with metavariables + polynomial normal forms for formulas, table agreement",
+    },
+    "C08": {
+        "text": "Per-operation invariants every history relies on: closed-guard first; validate-before-mutate (no raise reachable after a state store); settings read at "
+                "the point of use after the dummy yield (no local/parameter snapshots; first frame number read from frame_offset after the yield); the iterator uses only "
+                "four attributes of the renderable and writes none; sibling seek rules agree and every accepted seek is recorded on all non-raising paths; the padded size "
+                "is recomputed from the stored padding and current size; cached frames are stored unpadded.",
+        "note": _NOTE + " The frame sequence / loop countdown for an arbitrary operation history is a state-machine question over runtime counters - not decided.",
+        "technique": "dominance and reachability on the CFG (validate-before-mutate, must-record), reaching-definition / snapshot scan, who-may-use table, sibling agreement",
+    },
+    "C09": {
+        "text": "Cache-key coverage as table agreement: the set of cells that control methods can change (discovered from the setters) intersected with the inputs of "
+                "_render_ must appear in the compared key, and stored details equal compared details; the cache index is the rendered frame number; padded frames are never "
+                "stored; a hit renders nothing; cache switch (INDEFINITE, bool, frame_count<=cache, loops==1); ImageIterator stores a fresh size hash after each render.",
+        "note": _NOTE + " Relational equivalence of cached and uncached runs over all histories is not decided.",
+        "technique": "writer-table vs reader-table agreement (mutable cells vs cache key), CFG reachability (no store after padding), guard containment, def-use of the size hash",
+    },
 }
